@@ -271,7 +271,7 @@ func c04NoFloat(c *Ctx, barms map[int64]OpArm, rule string) {
 			// and the coercion helpers it calls
 			instrs(h, func(b *ssa.BasicBlock, i int, in ssa.Instruction) {
 				if call, ok := in.(*ssa.Call); ok {
-					if cal := calleeOf(call); cal != nil && c.inModule(cal) && cal.Name() != "newDecimalBig" && cal.Signature.Results().Len() == 1 && strings.HasSuffix(cal.Signature.Results().At(0).Type().String(), "decimal.Big") {
+					if cal := calleeOf(call); cal != nil && c.inModule(cal) && cal.Name() != c.P.alias("newDecimalBig") && cal.Signature.Results().Len() == 1 && strings.HasSuffix(cal.Signature.Results().At(0).Type().String(), "decimal.Big") {
 						set[cal] = "number coercion"
 					}
 				}
